@@ -9,10 +9,10 @@ CLAIM = {
           'printable identifier, all records and layouts), bit_identified_c13 (TD.C13.encode of any non-empty list of well-formed '
           'passes), dat_identified (TD.C14.Spec.print f in every layout, with the DAT trial parse instantiated by the C14 model '
           'canParseFile and proved to accept the file), lis_identified (TD.C05.encode L (header :: records) for every valid '
-          'layout and TIF mode, with the deep test _lis made concrete as TD.C20.lisTest = the repaired two-round loop (pr_limit 100, then '
-          'the whole file; every pad option with the maximal count tried in dict order, options that raise or give an empty index '
-          'skipped; C05 pad scan + reader, C06 FileIndex), PROVED to answer the code of the layout when in one of the two rounds no '
-          'option over-counts (or the file has >= 100 physical records) and building the index does not raise; '
+          'layout and TIF mode, with the deep test _lis made concrete as TD.C20.lisTest = the loop of /repo after 80d49da (pr_limit 100, '
+          'then the whole file; every pad option that read at least one physical record tried, best count first, ties in dict order; '
+          'options that raise or give an empty index skipped; C05 pad scan + reader, C06 FileIndex), PROVED to answer the code of the '
+          'layout whenever building the index over the records does not raise - no condition on the pad-option scan is left; '
           'lis_answer_is_tif_state: for EVERY byte string the answer, if any, is the code of the TIF state of the first 12 bytes, '
           'whichever option succeeded), plus the '
           'prefix-level rp66_identified / bit_identified / lis_family_identified_partial / dat_text_identified and the scanner-level '
@@ -20,11 +20,10 @@ CLAIM = {
           'all truncations <= 400 bytes, mutations, random bytes and adversarial text. "Raises nothing / terminates promptly / '
           'leaves the file readable" are properties of the CPython code, not of the model: they are exercised (partial), with every '
           'exception an oracle failure.'),
- 'note': ('Partial: residual hypotheses of lis_identified: the scan condition (>= 100 physical records, or no pad option over-counts in '
-          'the 100-scan, or none in the whole-file scan), FileIndex does not raise on the record contents (hidx), file < 2^32-24 '
-          'bytes. TD.C05.encode writes no PAD bytes: padded files (input class of the repaired defect 7ad9eab) are covered by '
-          'kernel-evaluated examples (ExamplesPad.lean), the oracle and the lis-deep stream, not by a theorem; one sub-class is still '
-          'misidentified by the repaired code (finding C20-lis-padded-wrong-option-overcounts). lisTest reads whole records where '
+ 'note': ('Partial: residual hypotheses of lis_identified: FileIndex does not raise on the record contents (hidx), file < 2^32-24 '
+          'bytes, header record shape. TD.C05.encode writes no PAD bytes: padded files (input classes of the repaired defects 7ad9eab, '
+          '80d49da) are covered by three kernel-evaluated examples (ExamplesPad.lean), the oracle, the corpus and the lis-deep stream, '
+          'not by a theorem. lisTest reads whole records where '
           'FileIndex reads parts (equal on written files by read_refines; compared with _lis on written and padded files in stream '
           'lis-deep, files outside the C06 model scope skipped); LAS is proved at the level of the line scanner, not against TD.C09.print (whose number styles for VERS '
           'produce files the code does not identify: known finding FC20d). dat_identified needs "fifth byte is not V" (FC20e). '
@@ -413,34 +412,6 @@ def ebcdic_blocks(rng):
     return out
 
 
-def lis_overcount_finding(true_mod):
-    """Classifier of known finding C20-lis-padded-wrong-option-overcounts for a plain null-padded file whose own pad option
-    is (true_mod, False): the answer is '' and, in both rounds, an option other than the file's own counts more records."""
-    def classify(b, out):
-        if out != '':
-            return None
-        from TotalDepth.LIS.core import File
-        for lim in (100, 0):
-            d = {(k.pad_modulo, k.pad_non_null): v for k, v in File.scan_file_with_different_padding(io.BytesIO(b), True, lim).items()}
-            if not (0 < d[(true_mod, False)] < max(d.values())):
-                return None
-        return 'C20-lis-padded-wrong-option-overcounts'
-    return classify
-
-
-def lispad_finding(name, expect, rec):
-    """finding classifier for a generated padded plain LIS file (None for everything else)"""
-    if name != 'lispad' or expect != 'LIS' or rec.get('nonnull'):
-        return None
-    if rec.get('padbreak') == 'short':
-        return lis_overcount_finding(2)
-    if rec.get('padbreak') == 'late':
-        return lis_overcount_finding(rec['mod'])
-    if rec.get('padded') and rec['padded'][0] == 'mod' and rec['padded'][1] in (2, 4):
-        return lis_overcount_finding(rec['padded'][1])
-    return None
-
-
 def odd_version_las(rng):
     """LAS texts that the LAS reader accepts (VERS is numerically 1.2 / 2.0, C09 `checkV`) but whose version value is not
     spelled with the prefix `1.2` / `2.0`, or that give VERS a unit: class of known finding FC20d."""
@@ -631,8 +602,7 @@ def run(ctx):
                 b, expect, rec = generate_sized(name, target, seed)
                 if name in ('lis', 'lispad') and expect != 'LIS' and rec.get('first_pr') == 276:
                     expect = None
-                B.run_one('sized:' + name, b, {'sized': name, 'target': target, 'seed': seed}, expect=expect, check_path=(d == 0 and kk % 4 == 0),
-                          finding_if_wrong=lispad_finding(name, expect, rec))
+                B.run_one('sized:' + name, b, {'sized': name, 'target': target, 'seed': seed}, expect=expect, check_path=(d == 0 and kk % 4 == 0))
         B.flush()
     # ---- 1c. path histories: the answer is a function of the bytes, not of what was at that path before
     run_histories(ctx, bft)
@@ -647,7 +617,7 @@ def run(ctx):
             origin = {'gen': name, 'seed': seed}
             if name in ('lis', 'lispad') and expect != 'LIS' and rec.get('first_pr') == 276:
                 expect = None      # the stated exclusion: TIF-marked, first record exactly 276 bytes (BIT signature)
-            B.run_one('valid:' + name, b, origin, expect=expect, check_path=(k % 10 == 0), finding_if_wrong=lispad_finding(name, expect, rec))
+            B.run_one('valid:' + name, b, origin, expect=expect, check_path=(k % 10 == 0))
             if k < ctx.n(2, 6):
                 valid.append((b, expect, origin))
             if k == 0:
